@@ -10,8 +10,6 @@
      f_sort   object members are emitted in sorted key order (Go map + json.Marshal)
      f_esc    json.Marshal's HTML-safe escapes: < > & U+2028 U+2029 as \uXXXX
      f_surr   unpaired surrogates become U+FFFD (Go strings are UTF-8)
-     f_plist  the property-list bug (names stored at the original index,
-              list cut to the number of accepted names)
      f_gap    a string gap is cut to 10 bytes of UTF-8 instead of 10 code units
      f_int    an integral number below 2^63 is printed with all the digits of its
               exact value (strconv.FormatInt) instead of the shortest digits of 9.8.1 *)
@@ -233,9 +231,9 @@ Inductive pitem := PStr (s : list Z) | PNum (n : Z) | PWStr (s : list Z) | PWNum
 Inductive replacer := RNone | RFun (id : Z) | RList (l : list pitem).
 Inductive space := SNone | SNum (bits : Z) | SStr (s : list Z) | SWNum (bits : Z) | SWStr (s : list Z) | SJunk.
 
-Record flags := { f_sort : bool; f_esc : bool; f_surr : bool; f_plist : bool; f_gap : bool; f_int : bool }.
-Definition es5 : flags := Build_flags false false false false false false.
-Definition otto : flags := Build_flags true true true true true true.
+Record flags := { f_sort : bool; f_esc : bool; f_surr : bool; f_gap : bool; f_int : bool }.
+Definition es5 : flags := Build_flags false false false false false.
+Definition otto : flags := Build_flags true true true true true.
 
 (* replacer functions of the family (key, value) -> value *)
 Definition rep_fun (id : Z) (key : list Z) (v : js) : js :=
@@ -271,24 +269,10 @@ Fixpoint plist_es5 (l : list pitem) (seen : list (list Z)) : list (list Z) :=
               end
   end.
 
-(* otto: make([]string, len); accepted names are stored at their ORIGINAL index, the
-   list is then cut to the NUMBER of accepted names *)
-Fixpoint plist_otto_slots (l : list pitem) (seen : list (list Z)) : list (list Z) * nat :=
-  match l with
-  | [] => ([], O)
-  | p :: r => match pitem_name p with
-              | Some k => if mem_key k seen then let (s, c) := plist_otto_slots r seen in ([] :: s, c)
-                          else let (s, c) := plist_otto_slots r (k :: seen) in (k :: s, S c)
-              | None => let (s, c) := plist_otto_slots r seen in ([] :: s, c)
-              end
-  end.
-Definition plist_otto (l : list pitem) : list (list Z) :=
-  let (s, c) := plist_otto_slots l [] in firstn c s.
-
 (* with f_surr the names go through a Go string *)
 Definition plist_of (fl : flags) (l : list pitem) : list (list Z) :=
   let l' := if f_surr fl then map (fun p => match p with PStr s => PStr (sanitize s) | PWStr s => PWStr (sanitize s) | _ => p end) l else l in
-  if f_plist fl then plist_otto l' else plist_es5 l' [].
+  plist_es5 l' [].
 
 (* ------------------------------------------------------------------ *)
 (* 15.12.3 Str / JO / JA as value -> JSON tree (numbers as their text); the
@@ -472,9 +456,7 @@ Definition stringify (fl : flags) (v : js) (rep : replacer) (sp : space) : sres 
 
 (* ------------------------------------------------------------------ *)
 (* 15.12.2 Walk with a reviver of the family; the log records every call
-   (key, value as seen by the reviver), the flag records whether a member of
-   an object with two or more members was deleted (otto's enumeration order
-   is then not reproducible: see the reviver findings) *)
+   (key, value as seen by the reviver) *)
 Definition rev_fun (id : Z) (key : list Z) (v : ov) : ov :=
   if id =? 0 then v
   else if id =? 1 then match v with ONum _ => OUndef | _ => v end
@@ -483,58 +465,42 @@ Definition rev_fun (id : Z) (key : list Z) (v : ov) : ov :=
   else if id =? 4 then match v with OArr l => ONum (encode_int_or_nan (Z.of_nat (length l))) | _ => v end
   else if id =? 5 then match v with OObj _ => ONull | _ => v end
   else if id =? 6 then match v with ONull => OUndef | OBool _ => OUndef | _ => v end
+  else if id =? 7 then if key_eqb key [] then v else OUndef          (* delete every member *)
   else v.
 
 Definition is_undef (v : ov) : bool := match v with OUndef => true | _ => false end.
 
 Fixpoint rwalk (id : Z) (fuel : nat) (key : list Z) (v : ov) {struct fuel}
-  : list (list Z * ov) * ov * bool :=
+  : list (list Z * ov) * ov :=
   match fuel with
-  | O => ([], OOther, true)
+  | O => ([], OOther)
   | S f =>
-      let '(log, v', bad) :=
+      let '(log, v') :=
         match v with
         | OArr l =>
-            let step := fun (acc : list (list Z * ov) * list ov * bool * Z) (x : ov) =>
-                          let '(lg, out, bd, i) := acc in
-                          let '(lg1, x', bd1) := rwalk id f (dec i) x in
-                          (lg ++ lg1, out ++ [if is_undef x' then OHole else x'], bd || bd1, i + 1) in
-            let '(lg, out, bd, _) := fold_left step l ([], [], false, 0) in
-            (lg, OArr out, bd)
+            let step := fun (acc : list (list Z * ov) * list ov * Z) (x : ov) =>
+                          let '(lg, out, i) := acc in
+                          let '(lg1, x') := rwalk id f (dec i) x in
+                          (lg ++ lg1, out ++ [if is_undef x' then OHole else x'], i + 1) in
+            let '(lg, out, _) := fold_left step l ([], [], 0) in
+            (lg, OArr out)
         | OObj m =>
-            let multi := (2 <=? length m)%nat in
-            let step := fun (acc : list (list Z * ov) * list (list Z * ov) * bool) (kv : list Z * ov) =>
-                          let '(lg, out, bd) := acc in
-                          let '(lg1, x', bd1) := rwalk id f (fst kv) (snd kv) in
-                          if is_undef x' then (lg ++ lg1, out, bd || bd1 || multi)
-                          else (lg ++ lg1, out ++ [(fst kv, x')], bd || bd1) in
-            let '(lg, out, bd) := fold_left step m ([], [], false) in
-            (lg, OObj out, bd)
-        | _ => ([], v, false)
+            let step := fun (acc : list (list Z * ov) * list (list Z * ov)) (kv : list Z * ov) =>
+                          let '(lg, out) := acc in
+                          let '(lg1, x') := rwalk id f (fst kv) (snd kv) in
+                          if is_undef x' then (lg ++ lg1, out)
+                          else (lg ++ lg1, out ++ [(fst kv, x')]) in
+            let '(lg, out) := fold_left step m ([], []) in
+            (lg, OObj out)
+        | _ => ([], v)
         end in
-      (log ++ [(key, v')], rev_fun id key v', bad)
+      (log ++ [(key, v')], rev_fun id key v')
   end.
 
-(* otto's builtinJSONReviveWalk enumerates obj.propertyOrder while deleting from
-   it: object.deleteProperty shifts the slice in place under the running range
-   loop.  With a reviver that deletes every member, this is how many survive. *)
-Fixpoint revdel_loop (fuel : nat) (view order : list Z) (i : nat) : list Z :=
-  match fuel with
-  | O => order
-  | S f =>
-      match nth_error view i with
-      | None => order
-      | Some name =>
-          if existsb (Z.eqb name) order then
-            (* deleted: order loses name; the shared backing array shifts left from its position *)
-            let order' := filter (fun x => negb (x =? name)) order in
-            let view' := firstn (length order') order' ++ skipn (length order') view in
-            (* backing array after append(order[:idx], order[idx+1:]...): first len(order') cells = order',
-               the cell after them keeps its old content *)
-            revdel_loop f view' order' (S i)
-          else revdel_loop f view order (S i)
-      end
+(* the n-member object {"k0":null,...} under the all-deleting reviver: members left *)
+Definition revdel_left (n : Z) : Z :=
+  let m := map (fun i => (107 :: dec (Z.of_nat i), ONull)) (seq 0 (Z.to_nat n)) in
+  match snd (rwalk 7 5 [] (OObj m)) with
+  | OObj r => Z.of_nat (length r)
+  | _ => -1
   end.
-Definition revdel_survivors (n : Z) : Z :=
-  let keys := map Z.of_nat (seq 0 (Z.to_nat n)) in
-  Z.of_nat (length (revdel_loop (S (Z.to_nat n)) keys keys 0)).
